@@ -56,3 +56,46 @@ pub fn worker(args: &[String]) -> i32 {
         _ => 64,
     }
 }
+
+/// Entry point of the Miri lanes (`svmon --miri-lane <what>`).
+pub fn miri_lane(what: &str) -> i32 {
+    match what {
+        "c05" => c05::miri_lane(),
+        "c04" | "c08" | "c20" => smoke(what),
+        _ => 64,
+    }
+}
+
+/// UB smoke test of the pure data-structure code under Miri: a few hundred oracle comparisons of
+/// the same monitors (declared as a smoke lane in the evidence; never a substitute for them).
+fn smoke(what: &str) -> i32 {
+    let id = what.to_uppercase();
+    let mut ctx = Ctx::new(&id, crate::ctx::Tier::Quick, 11, None);
+    ctx.verif_dir = std::env::temp_dir().join("svmon-miri-lane");
+    {
+        let ctx = &ctx;
+        match what {
+            "c04" => {
+                ctx.cases("miri/containers", 60, 1, c04::containers_case);
+                ctx.cases("miri/maps", 40, 1, c04::maps_case);
+                ctx.cases("miri/networks", 40, 1, c04::network_case);
+                ctx.cases("miri/misc", 20, 1, c04::misc_case);
+            }
+            "c08" => {
+                ctx.cases("miri/register", 60, 1, |c| c08::random_case::<stateright::semantics::register::Register<char>>(c, 5));
+                ctx.cases("miri/vec", 40, 1, |c| c08::random_case::<Vec<char>>(c, 5));
+            }
+            _ => {
+                ctx.cases("miri/clocks", 200, 1, c20::clock_case);
+                ctx.cases("miri/densenatmap", 100, 1, c20::dense_case);
+            }
+        }
+    }
+    let code = ctx.finish();
+    if code == 0 {
+        println!("{}", serde_json::json!({"miri_lane_ok": true}));
+    } else {
+        println!("{}", serde_json::json!({"violation": "see VIOLATION lines above"}));
+    }
+    code
+}
